@@ -31,6 +31,7 @@ type Contract struct {
 	Lets     []Clause // Label = name
 	Requires []Clause
 	Ensures  []Clause
+	GhostEns []Clause // ghost definitions: assumed at call sites and at the function's own returns, never checked
 	Modifies []Clause
 	Loops    map[int]*LoopSpec
 	Closures map[int]*Contract // contracts of function literals (ordinal within the function)
@@ -93,7 +94,7 @@ func newContractSet() *ContractSet {
 
 var clauseKeywords = map[string]bool{
 	"requires": true, "ensures": true, "modifies": true, "loop": true, "trusted": true, "let": true,
-	"inline": true, "flag": true, "cover": true, "closure": true, "returns": true,
+	"inline": true, "flag": true, "cover": true, "closure": true, "returns": true, "ghost_ensures": true,
 }
 
 // parseContractFile reads //@ lines. pkgPath is the package owning the file ("" = external spec file).
@@ -238,6 +239,8 @@ func (cs *ContractSet) parseContractFile(path, pkgPath string) {
 				target.Requires = append(target.Requires, mk(rest))
 			case "ensures":
 				target.Ensures = append(target.Ensures, mk(rest))
+			case "ghost_ensures":
+				target.GhostEns = append(target.GhostEns, mk(rest))
 			case "cover":
 				target.Covers = append(target.Covers, mk(rest))
 			case "modifies":
